@@ -141,6 +141,7 @@ theorem krill_nesting_ranked :
     edgeOk (.scope .cas) (.root .tasks) = true ∧ edgeOk (.root .caObjects) (.root .keys) = true ∧
     edgeOk (.scope .cas) (.root .signers) = true ∧ edgeOk (.root .signers) (.scope .signers) = true ∧
     edgeOk (.root .tasks) (.scope .tasks) = true ∧ edgeOk .pubdUpdate .rsync = true ∧
+    edgeOk .pubdUpdate (.root .pubdObjects) = true ∧
     edgeOk (.scope .taProxy) (.root .tasks) = true ∧ edgeOk (.scope .taSigner) (.root .keys) = true ∧
     edgeOk (.scope .cas) (.scope .cas) = false ∧ edgeOk (.root .tasks) (.scope .cas) = false ∧
     edgeOk (.root .caObjects) (.scope .cas) = false ∧ edgeOk .rsync .pubdUpdate = false ∧
